@@ -3,5 +3,5 @@
 ID=$1; F=$2; E=$3; T=${4:-quick}
 cd /repo && sed -i "$E" "$F" && git diff --stat | head -3
 if git diff --quiet; then echo "MUTATION DID NOT APPLY"; exit 3; fi
-cd /verif && VERIF_BUDGET_S=${BUDGET:-200} ./check $ID --tier $T 2>&1 | grep -v '^  ' | tail -${TAIL:-6}
+cd /verif && VERIF_EVIDENCE_DIR=/tmp/verif-mutant-evidence VERIF_BUDGET_S=${BUDGET:-200} ./check $ID --tier $T 2>&1 | grep -v '^  ' | tail -${TAIL:-6}
 cd /repo && git checkout -- . && git status --short
